@@ -184,46 +184,41 @@ def _progress(ctx: Ctx, c: Collector) -> None:
     N = ("idx", spec, T.const(2))
     LT = T.canon_cmp("<", ("idx", spec, T.const(0)), tad)
     LE = T.canon_cmp("<=", ("idx", spec, T.const(0)), tad)
-    exits = [(r.guards, r.term) for r in s.returns]
     # every comparison against the target must be a comparison with time + shift
     tgt0 = ("idx", spec, T.const(0))
-    for r in s.returns:
-        for cm in T.find(tuple(g[1] for g in r.guards), lambda x: x[0] == "cmp" and tgt0 in (x[2], x[3])):
-            other = cm[3] if cm[2] == tgt0 else cm[2]
-            if other != tad:
-                c.bad("O5b", qn, "trigger-table", f"the target is compared with {T.show(other)} instead of {T.show(tad)} (progress shifted by the connection's delay)", fi.loc)
-                return_early = True
-                break
-        else:
-            continue
-        break
+    ret = folded_return(s)
+    wrong = None
+    for cm in T.find((ret,) + tuple(g[1] for r in s.returns for g in r.guards), lambda x: x[0] == "cmp" and tgt0 in (x[2], x[3])):
+        other = cm[3] if cm[2] == tgt0 else cm[2]
+        if other != tad:
+            wrong = other
+    if wrong is not None:
+        c.bad("O5b", qn, "trigger-table", f"the target is compared with {T.show(wrong)} instead of {T.show(tad)} (progress shifted by the connection's delay)", fi.loc)
     else:
-        return_early = False
-    try:
-        if return_early:
-            raise StopIteration
-        bad = []
-        rows = 0
-        for a in boolfn.assignments([N, LT, LE], lambda a: (not a[LT]) or a[LE]):
-            rows += 1
-            out = boolfn.first_exit(exits, a)
-            if out is None:
-                out = T.NONE
-            want_trig = (a[N] and a[LT]) or ((not a[N]) and a[LE])
-            got_trig = out != T.NONE
-            if want_trig != got_trig:
-                bad.append(f"needs_to_pass={a[N]}, time+shift{'>' if a[LT] else ('==' if a[LE] else '<')}target: "
-                           f"{'triggers' if got_trig else 'does not trigger'}")
-            elif got_trig and out != tad:
-                bad.append(f"returns {T.show(out)} instead of {T.show(tad)}")
-        if bad:
-            c.bad("O5b", qn, "trigger-table", "; ".join(sorted(set(bad))), fi.loc)
-        else:
-            c.ok("O5b", qn, "trigger-table", f"{rows} rows: strict > iff needs_to_pass, >= otherwise, compares time+shift with target", fi.loc)
-    except StopIteration:
-        pass
-    except boolfn.NotBoolean as e:
-        c.unk("O5b", qn, "trigger-table", f"condition not understood: {e}", fi.loc)
+        LTl, GTl = ("cmp", "<", tgt0, tad), ("cmp", "<", tad, tgt0)
+        EQl = T.canon_cmp("==", tgt0, tad)
+        try:
+            bad = []
+            rows = 0
+            for n_, lt, gt_, eq_ in ((n_, *x) for n_ in (False, True) for x in ((True, False, False), (False, True, False), (False, False, True))):
+                a = {N: n_, LTl: lt, GTl: gt_, EQl: eq_}
+                rows += 1
+                out = boolfn.resolve_phi(ret, a) if ret is not None else T.NONE
+                if T.is_term(out) and out[0] in ("phi", "ifexp"):
+                    raise boolfn.NotBoolean(T.show(out[1]))
+                want_trig = (n_ and lt) or ((not n_) and (lt or eq_))
+                got_trig = out != T.NONE
+                if want_trig != got_trig:
+                    bad.append(f"needs_to_pass={n_}, time+shift{'>' if lt else ('==' if eq_ else '<')}target: "
+                               f"{'triggers' if got_trig else 'does not trigger'}")
+                elif got_trig and out != tad:
+                    bad.append(f"returns {T.show(out)} instead of {T.show(tad)}")
+            if bad:
+                c.bad("O5b", qn, "trigger-table", "; ".join(sorted(set(bad))), fi.loc)
+            else:
+                c.ok("O5b", qn, "trigger-table", f"{rows} rows: strict > iff needs_to_pass, >= otherwise, compares time+shift with target", fi.loc)
+        except boolfn.NotBoolean as e:
+            c.unk("O5b", qn, "trigger-table", f"condition not understood: {e}", fi.loc)
 
     # _add_trigger: check-then-register without suspension, future awaited
     qn = f"{PROGRESS}._add_trigger"
